@@ -202,7 +202,12 @@ theorem T08_refine_sort_entries (l : List (CKey × CItem)) :
 /-- the full refinement statement: every op (all 17) has a plain op. Proved for the 13 ops of
     `plainOp` (`T08_refine`); open for `viv`, `sort` (needs the `dotted` flags, which the plain tree
     does not have: the statement holds on the semantic tree, see `T08_refine_sort_entries`),
-    `arr2aot` and `mv`. -/
+    `arr2aot` and `mv`.
+    Settled in `Props/C08Full.lean`: this shape is FALSE (`T08_refine_full_false`: `sort` depends on
+    the `dotted` flags, `mv` changes a second path); the corrected statement for all 17 ops is
+    `T08_refine_all` (with `SortSide` for `sort`, `pMv` for `mv`), 15 ops have exactly this shape
+    (`T08_refine_single`), `sort` is exact on the semantic tree (`T08_refine_sort_sem`), histories
+    are `T08_refine_history`, and the print-level frame is `T08_print_untouched`. -/
 def T08_refine_full : Prop :=
   ∀ op : Op, ∃ f : Plain → Option Plain, ∀ (st st' : St) (p : List Seg),
     applyOp st op p = some st' → pupd f p (plainT st.doc.root) = some (plainT st'.doc.root)
